@@ -220,8 +220,26 @@ def judge_file(path, shape, config, rejections, stats, asserts):
     tree = build_tree(shape)
     for hdr, ops in scenarios(path):
         stats.inc('scenarios')
-        for mod in plugins():
-            mod.judge(hdr, ops, tree, config, rejections, stats)
+        if any(op.name == 'attachlogger' for op in ops):
+            # harness sweepLogger: the logger is detached and re-attached in mid-run.  C16's oracle follows the attachment
+            # itself; every other oracle judges the scenario as the logger-less run it must be equivalent to (records
+            # stripped, log=0: their "blind" mode), so a behaviour change caused by (de)attachment is still rejected by them.
+            import copy
+            hdr0 = dict(hdr, config=dict(hdr.get('config', {}), log='0'))
+            ops0 = []
+            for op in ops:
+                o2 = copy.copy(op)
+                o2.events = [e for e in op.events if e[0] != 'log']
+                ops0.append(o2)
+            config0 = dict(config, log=0) if isinstance(config, dict) else config
+            for mod in plugins():
+                if mod.__name__ == 'oracle_c16':
+                    mod.judge(hdr, ops, tree, config, rejections, stats)
+                else:
+                    mod.judge(hdr0, ops0, tree, config0, rejections, stats)
+        else:
+            for mod in plugins():
+                mod.judge(hdr, ops, tree, config, rejections, stats)
         active = {0: False, 1: False}      # machine activated?
         last_snap = {}
         for idx, op in enumerate(ops):
